@@ -16,6 +16,7 @@ open Finset
 section arr
 variable {α : Type}
 
+namespace Arr2
 theorem getD_setIfInBounds (A : Array α) (i j : Nat) (v d : α) :
     (A.setIfInBounds i v).getD j d = if i = j ∧ i < A.size then v else A.getD j d := by
   simp only [Array.getD_eq_getD_getElem?, Array.getElem?_setIfInBounds]
@@ -31,7 +32,9 @@ theorem getD_setIfInBounds_self (A : Array α) {i : Nat} (v d : α) (h : i < A.s
     (A.setIfInBounds i v).getD i d = v := by
   rw [getD_setIfInBounds]; simp [h]
 
+end Arr2
 end arr
+open Arr2
 
 section two
 variable {K : Type} [Zero K]
